@@ -46,6 +46,9 @@ type c09Doc struct {
 func c09XMLValid(b []byte) bool {
 	d := xml.NewDecoder(bytes.NewReader(b))
 	d.Strict = true
+	// any declared encoding is read as bytes: only well-formedness is judged (without this, encoding/xml rejects
+	// `encoding='ISO-8859-1'` but overlooks the same declaration written with spaces around `=`)
+	d.CharsetReader = func(_ string, r io.Reader) (io.Reader, error) { return r, nil }
 	depth := 0
 	for {
 		t, err := d.Token()
@@ -62,6 +65,20 @@ func c09XMLValid(b []byte) bool {
 			depth--
 		}
 	}
+}
+
+// encoding/xml is lenient about `<! … >` directives (it even accepts nested angle brackets); a mutated document that only
+// it accepts is not evidence of well-formed input: require that every `<!` starts a comment, CDATA section or DOCTYPE
+func c09XMLNoOddDirective(b []byte) bool {
+	for i := 0; i+1 < len(b); i++ {
+		if b[i] == '<' && b[i+1] == '!' {
+			r := b[i+2:]
+			if !(bytes.HasPrefix(r, []byte("--")) || bytes.HasPrefix(r, []byte("[CDATA[")) || bytes.HasPrefix(r, []byte("DOCTYPE"))) {
+				return false
+			}
+		}
+	}
+	return true
 }
 
 // c09CSSValid: strings and comments terminated, (), [], {} balanced outside strings/comments.
@@ -230,10 +247,10 @@ func c09Docs(repo string, maxBytes int) []c09Doc {
 	for mt, ss := range map[string][]string{
 		"text/html":              {`<!doctype html><html><head><title>T</title><style>a{color:red}</style><script>var a = '<\/script>', b = "\x3C/script>", c = /<\/script>/;</script></head><body><p class="x y">Hello <b>w</b> &amp; <a href="http://x/y?a=1&amp;b=2">l</a><textarea> a  b </textarea></p><pre> a  b </pre><svg><path d="M0 0L1 1z"/></svg><!-- c --><script type="text/template"><div></div></script></body></html>`},
 		"text/css":               {`@charset "utf-8";@import "a.css";@media (min-width:100px){a:hover>b.c#d[e="f"]{margin:0px 0px;color:#ff0000;background:url("x y.png") no-repeat 0% 0%;font:bold 12px/1 "Arial",sans-serif;content:"\"}"}}`},
-		"application/javascript": {"function f(a,b){if(a){return b+1}else{return `x${a}`}}var x=/re[/]/g.test('s')?1e3:0x10;for(let i=0;i<3;i++){x+=i}class A{#p=1;static m(){}}a = b + +c; d = e - -f; g = h / /re/.exec('x'); i = j < !--k; l = 1..toString(); m = 2 .toString()\nlet n = a\n++b\nvar o = a ?? (b || c); p = a?.[0]?.(1)"},
+		"application/javascript": {"function f(a,b){if(a){return b+1}else{return `x${a}`}}var x=/re[/]/g.test('s')?1e3:0x10;for(let i=0;i<3;i++){x+=i}class A{#p=1;static m(){}}a = b + +c; d = e - -f; g = h / /re/.exec('x'); i = j < !--k; l = 1..toString(); m = 2 .toString()\nlet n = a\n++b\nvar o = a ?? (b || c); p = a?.[0]?.(1)", "x=0x10.toString(2);y=0b101.toFixed(1);z=((5)).toFixed(2);w=(5.0).a;v=1e3.b;u=0o17.c;t=(1n).toString()"},
 		"application/json":       {`{"a":[1.0e2,true,null,"sA"],"b":{"c":-0.0,"c":0.5}}`},
 		"image/svg+xml":          {`<?xml version="1.0"?><svg xmlns="http://www.w3.org/2000/svg" width="10px"><g fill="#FF0000"><path d="M 10,10 L 20 20 A 5 5 0 0 1 30 30 z M.5.5 1-2"/></g><style>a{b:c}</style><text> a &lt; b </text></svg>`},
-		"text/xml":               {`<?xml version="1.0"?><a b="c &amp; d &#60; &#9;" c='"'><![CDATA[ x < y ]]> <e> t </e><f></f><g>a]&gt;b</g></a>`},
+		"text/xml":               {`<?xml version="1.0"?><a b="c &amp; d &#60; &#9;" c='"'><![CDATA[ x < y ]]> <e> t </e><f></f><g>a]&gt;b</g></a>`, `<a>]]<!-- note -->&gt;<b><![CDATA[x]]]]><!--c--><![CDATA[>y]]></b><c>]]&#62;</c></a>`},
 	} {
 		for i, s := range ss {
 			docs = append(docs, c09Doc{mt, fmt.Sprintf("seed-%d", i), []byte(s)})
@@ -299,11 +316,13 @@ func init() {
 					report("output is not valid JSON (encoding/json) although the input is", "")
 				}
 			case "text/xml", "image/svg+xml":
-				if c09XMLValid(d.data) && !c09XMLValid(o) {
+				if c09XMLValid(d.data) && c09XMLNoOddDirective(d.data) && !c09XMLValid(o) {
 					report("output is not well-formed XML (encoding/xml) although the input is", "")
 				}
 			case "text/css":
-				if c09CSSValid(d.data) && !c09CSSValid(o) {
+				// only for unmutated style sheets: on byte-mutated garbage (stray quotes pairing up across rules) the crude
+				// balance checker's verdict on the input means nothing
+				if !mutated && c09CSSValid(d.data) && !c09CSSValid(o) {
 					report("output has unbalanced blocks/strings/comments although the input is balanced", "")
 				}
 			case "text/html":
